@@ -220,7 +220,7 @@ func C06(rep *ev.Reporter, tier string) {
 	RunFamily(rep, gen, 3000, bud, judge)
 	rep.Coverage["zero_listener_runs_compared"] = plainChecked
 	c06Nested(rep, sets, maxMax)
-	rep.Coverage["rule"] = "rule sets {never satisfied, fires n=1..3 times, loops forever (1 and 2 rules), Complete at firing n, action error at firing n, retract chain, mixed, failing condition} x MaxCycle 0..5 (thorough 0..8) x 1..4 listeners (+ a listener-free differential run) x every rule order per cycle. Oracle: the engine model followed along the observed trace decides, per cycle, whether the run must continue, fire, end with nil, with the limit error or with an action error; per-listener protocol automaton (consecutive numbering, each active rule exactly once, <=1 execution of a same-cycle candidate). Termination horizon is a callback count, not a clock. Non-trivial: a run that reaches the budget boundary with candidates left. Second family (overlapping runs on ONE engine value): for every outer program with a probe in an action or a condition x inner program x MaxCycle x probe invocation index j, the j-th probe invocation of the outer run starts a complete inner run (own instance, facts and data context) on the same *GruleEngine; both traces are judged by the same engine model and compared with the scenario run on two separate engine values."
+	rep.Coverage["rule"] = "rule sets {never satisfied, fires n=1..3 times, loops forever (1 and 2 rules), Complete at firing n, action error at firing n, retract chain, mixed, failing condition} x MaxCycle 0..5 (thorough 0..8) x 1..4 listeners (+ a listener-free differential run) x every rule order per cycle. Oracle: the engine model followed along the observed trace decides, per cycle, whether the run must continue, fire, end with nil, with the limit error or with an action error; per-listener protocol automaton (consecutive numbering, each active rule exactly once, <=1 execution of a same-cycle candidate). Termination horizon is a callback count, not a clock. Non-trivial: a run that reaches the budget boundary with candidates left. Second family (overlapping runs on ONE engine value): for every outer program with a probe in an action or a condition x inner program x MaxCycle x probe invocation index j, the j-th probe invocation of the outer run starts a complete inner run (own instance, facts and data context) on the same (warm: it served a complete run before) *GruleEngine, under the first and last static rule order of either run; both traces are judged by the same engine model and compared with the scenario run on two separate engine values."
 }
 
 // c06Nested: overlapping runs on one engine value, every nesting point enumerated.
@@ -267,75 +267,94 @@ func c06Nested(rep *ev.Reporter, sets map[string]func() []*grl.Rule, maxMax uint
 		oc := &Case{Rules: ob.Prog.Rules}
 		ic := &Case{Rules: ib.Prog.Rules}
 		// scenario(at, shared): outer run; its at-th probe invocation starts the inner run
+		oOrd, iOrd := 0, 0
 		scenario := func(at int, shared bool) (otr, itr *hx.Trace) {
 			se := hx.NewSharedEngine(j.mc, false)
 			ie := se
 			if !shared {
 				ie = hx.NewSharedEngine(j.mc, false)
 			}
+			// the engine value is WARM: it has served a complete run before (scratch state kept from run to
+			// run would be empty on a fresh value)
+			hx.Run(ib, c06World(), hx.RunOpts{Shared: se})
+			if ie != se {
+				hx.Run(ib, c06World(), hx.RunOpts{Shared: ie})
+			}
 			ow := c06World()
-			otr = hx.Run(ob, ow, hx.RunOpts{Shared: se, OnProbe: func(kind string, id int64, n int) {
+			otr = hx.Run(ob, ow, hx.RunOpts{Shared: se, DefaultChoice: oOrd, OnProbe: func(kind string, id int64, n int) {
 				if n == at && itr == nil {
-					itr = hx.Run(ib, c06World(), hx.RunOpts{Shared: ie})
+					itr = hx.Run(ib, c06World(), hx.RunOpts{Shared: ie, DefaultChoice: iOrd})
 				}
 			}})
 			return otr, itr
 		}
-		base, _ := scenario(0, true)
-		atomic.AddInt64(&nRuns, 1)
-		probes := 0
-		for _, e := range base.Events {
-			if strings.HasPrefix(e, "act:") || strings.HasPrefix(e, "chk:") {
-				probes++
+		// static rule orders of the outer and of the inner run: first and last permutation each
+		type ordPair struct{ o, i int }
+		ords := []ordPair{{0, 0}}
+		if no, ni := hx.NPerms(len(ob.Prog.Rules)), hx.NPerms(len(ib.Prog.Rules)); no > 1 || ni > 1 {
+			ords = append(ords, ordPair{no - 1, ni - 1})
+			if no > 1 && ni > 1 {
+				ords = append(ords, ordPair{no - 1, 0}, ordPair{0, ni - 1})
 			}
 		}
-		for at := 1; at <= probes; at++ {
-			caseID := fmt.Sprintf("c06/nested/%s/%s/max%d/at%d", j.outer, j.inner, j.mc, at)
-			if rep.ReplayFilter != "" && rep.ReplayFilter != caseID {
-				continue
+		for _, op := range ords {
+			oOrd, iOrd = op.o, op.i
+			base, _ := scenario(0, true)
+			atomic.AddInt64(&nRuns, 1)
+			probes := 0
+			for _, e := range base.Events {
+				if strings.HasPrefix(e, "act:") || strings.HasPrefix(e, "chk:") {
+					probes++
+				}
 			}
-			judgeOnce := func() (sig, what string) {
-				otr, itr := scenario(at, true)
-				rotr, ritr := scenario(at, false)
-				atomic.AddInt64(&nRuns, 4)
-				if itr == nil || ritr == nil {
-					return "", ""
-				}
-				for _, x := range []struct {
-					role string
-					c    *Case
-					tr   *hx.Trace
-				}{{"outer", oc, otr}, {"inner", ic, itr}} {
-					for _, v := range c06Judge(x.c, x.tr, nil) {
-						if v.Sig != "" {
-							return v.Sig + ":overlapping-runs-on-one-engine:" + x.role, fmt.Sprintf("%s run (the inner run was started by probe invocation %d of the outer run on the SAME engine value, MaxCycle=%d): %s\n  %s events: %s", x.role, at, j.mc, v.What, x.role, strings.Join(x.tr.Events, " "))
-						}
-					}
-				}
-				if !hx.OrderLive() {
-					return "", "" // without order control two runs of one scenario may break salience ties differently
-				}
-				if a, b := hx.Evs(otr.Events), hx.Evs(rotr.Events); a != b {
-					return "C06:run-differs-when-engine-value-is-shared:outer", fmt.Sprintf("outer run with the inner run on the same engine: %s\n  with the inner run on another engine value: %s", a, b)
-				}
-				if a, b := hx.Evs(itr.Events), hx.Evs(ritr.Events); a != b {
-					return "C06:run-differs-when-engine-value-is-shared:inner", fmt.Sprintf("inner run on the engine value of the outer run: %s\n  on its own engine value: %s", a, b)
-				}
-				return "", ""
-			}
-			sig, what := judgeOnce()
-			atomic.AddInt64(&nNest, 1)
-			atomic.AddInt64(&nontrivial, 1)
-			if sig != "" {
-				if s2, _ := judgeOnce(); s2 != sig {
-					fmt.Printf("HARNESS-NONDETERMINISM property=C06 case=%s sig=%s\n", caseID, sig)
+			for at := 1; at <= probes; at++ {
+				caseID := fmt.Sprintf("c06/nested/%s/%s/max%d/at%d/o%d.%d", j.outer, j.inner, j.mc, at, oOrd, iOrd)
+				if rep.ReplayFilter != "" && rep.ReplayFilter != caseID {
 					continue
 				}
-				rep.Violation(sig, what+"\n  case: "+caseID+"\n  outer grl: "+ob.Prog.Text+"\n  inner grl: "+ib.Prog.Text, map[string]interface{}{"case": caseID, "outer": ob.Prog.Text, "inner": ib.Prog.Text, "max_cycle": j.mc, "nest_at_probe": at})
-			}
-			if ji == 0 && at == 1 {
-				otr, itr := scenario(at, true)
-				rep.Sample(map[string]interface{}{"case": caseID, "outer": ob.Prog.Text, "inner": ib.Prog.Text, "outer_events": otr.Events, "inner_events": itr.Events})
+				judgeOnce := func() (sig, what string) {
+					otr, itr := scenario(at, true)
+					rotr, ritr := scenario(at, false)
+					atomic.AddInt64(&nRuns, 4)
+					if itr == nil || ritr == nil {
+						return "", ""
+					}
+					for _, x := range []struct {
+						role string
+						c    *Case
+						tr   *hx.Trace
+					}{{"outer", oc, otr}, {"inner", ic, itr}} {
+						for _, v := range c06Judge(x.c, x.tr, nil) {
+							if v.Sig != "" {
+								return v.Sig + ":overlapping-runs-on-one-engine:" + x.role, fmt.Sprintf("%s run (the inner run was started by probe invocation %d of the outer run on the SAME engine value, MaxCycle=%d): %s\n  %s events: %s", x.role, at, j.mc, v.What, x.role, strings.Join(x.tr.Events, " "))
+							}
+						}
+					}
+					if !hx.OrderLive() {
+						return "", "" // without order control two runs of one scenario may break salience ties differently
+					}
+					if a, b := hx.Evs(otr.Events), hx.Evs(rotr.Events); a != b {
+						return "C06:run-differs-when-engine-value-is-shared:outer", fmt.Sprintf("outer run with the inner run on the same engine: %s\n  with the inner run on another engine value: %s", a, b)
+					}
+					if a, b := hx.Evs(itr.Events), hx.Evs(ritr.Events); a != b {
+						return "C06:run-differs-when-engine-value-is-shared:inner", fmt.Sprintf("inner run on the engine value of the outer run: %s\n  on its own engine value: %s", a, b)
+					}
+					return "", ""
+				}
+				sig, what := judgeOnce()
+				atomic.AddInt64(&nNest, 1)
+				atomic.AddInt64(&nontrivial, 1)
+				if sig != "" {
+					if s2, _ := judgeOnce(); s2 != sig {
+						fmt.Printf("HARNESS-NONDETERMINISM property=C06 case=%s sig=%s\n", caseID, sig)
+						continue
+					}
+					rep.Violation(sig, what+"\n  case: "+caseID+"\n  outer grl: "+ob.Prog.Text+"\n  inner grl: "+ib.Prog.Text, map[string]interface{}{"case": caseID, "outer": ob.Prog.Text, "inner": ib.Prog.Text, "max_cycle": j.mc, "nest_at_probe": at, "outer_order": oOrd, "inner_order": iOrd})
+				}
+				if ji == 0 && at == 1 && oOrd == 0 {
+					otr, itr := scenario(at, true)
+					rep.Sample(map[string]interface{}{"case": caseID, "outer": ob.Prog.Text, "inner": ib.Prog.Text, "outer_events": otr.Events, "inner_events": itr.Events})
+				}
 			}
 		}
 	})
